@@ -489,7 +489,12 @@ class P(Prop):
         exp_pseudo = False
         if case["gene_level"]:
             with_gene = sum(1 for e in exp.values() if e["gene_name"])
-            if 2 * with_gene > len(exp):
+            if 2 * with_gene == len(exp):
+                # exactly half: "unless most records lack one" does not decide; follow what the run decided
+                exp_pseudo = bool(impl_out["pseudo"])
+                if not exp_pseudo:
+                    exp = table("gene")
+            elif 2 * with_gene > len(exp):
                 exp = table("gene")
             else:
                 exp_pseudo = True
